@@ -42,10 +42,10 @@ type part struct {
 }
 
 type prop struct {
-	ID    string
-	Level string
-	Parts []part
-	Rule  string
+	ID          string
+	Level       string
+	Parts       []part
+	Rule        string
 	Assumptions []string
 	// RaceIsViolation: race detector reports with a repository frame refute
 	// this property (C16, C15); elsewhere they are cross observations
@@ -307,9 +307,9 @@ func deathSignature(stderr string) (string, string) {
 }
 
 type raceReport struct {
-	Key   string
-	Text  string
-	Repo  bool
+	Key  string
+	Text string
+	Repo bool
 }
 
 var frameFn = regexp.MustCompile(`(?m)^  (\S+)\(\)$`)
@@ -409,17 +409,17 @@ func cmdBuild() int {
 }
 
 type replayFile struct {
-	Property  string          `json:"property"`
-	Part      string          `json:"part"`
-	Tier      string          `json:"tier"`
-	Seed      int64           `json:"seed"`
-	Idx       int             `json:"idx"`
-	Engine    string          `json:"engine"`
-	Signature string          `json:"signature"`
-	Expected  string          `json:"expected"`
-	Case      any             `json:"case"`
-	Observed  any             `json:"observed"`
-	HowTo     string          `json:"how_to_replay"`
+	Property  string `json:"property"`
+	Part      string `json:"part"`
+	Tier      string `json:"tier"`
+	Seed      int64  `json:"seed"`
+	Idx       int    `json:"idx"`
+	Engine    string `json:"engine"`
+	Signature string `json:"signature"`
+	Expected  string `json:"expected"`
+	Case      any    `json:"case"`
+	Observed  any    `json:"observed"`
+	HowTo     string `json:"how_to_replay"`
 }
 
 func cmdReplay(path string) int {
@@ -708,16 +708,16 @@ func cmdRun(id, tier string, replayIdx int, replayPart string, verbose bool) int
 		}
 	}
 	cov := map[string]any{
-		"evaluations":         evaluations,
-		"distinct_nontrivial": len(nt),
-		"rule":                pr.Rule,
-		"samples":             samples,
-		"counters":            counters,
-		"counters_by_part":    perPart,
-		"distinct_sets":       setCounts,
-		"cross_observations":  cross,
-		"known_findings_hit":  nKnown,
-		"children":            len(outs),
+		"evaluations":                           evaluations,
+		"distinct_nontrivial":                   len(nt),
+		"rule":                                  pr.Rule,
+		"samples":                               samples,
+		"counters":                              counters,
+		"counters_by_part":                      perPart,
+		"distinct_sets":                         setCounts,
+		"cross_observations":                    cross,
+		"known_findings_hit":                    nKnown,
+		"children":                              len(outs),
 		"children_rerun_after_go_runtime_crash": retried,
 	}
 	if exhaustive && len(outs) > 0 && tier == "thorough" {
